@@ -701,6 +701,321 @@ def parse? (args : List String) : Option (File × Int × Int × List Op) :=
     pure (⟨t0, dt, iw, p, sc, pu, r, g, b⟩, s, e, ops)
   | _ => none
 
+/-! ### buffers: what the arrays handed out by confocal objects can reach (clause 3 of the property)
+
+  Reference semantics of the NumPy side of `ConfocalImage._image / _timestamps / get_image`:
+    * a BUFFER is a block of memory (`St.mem`); an ARRAY object (`Arr`) reads a buffer through a list of flat positions
+      (basic slicing, `np.flip`, `.T` make VIEWS: new array objects on the SAME buffer) and carries a WRITEABLE flag (a view
+      inherits the flag of the array it was taken from);
+    * `_image` / `_timestamps` (`method_cache`): look the key up in the object's table, else call the factory, set
+      `flags.writeable = False` on the array object the factory returned, store THAT OBJECT in the table and hand THAT OBJECT
+      out (`get_image(colour)` returns `self._image(colour)`; `timestamps` returns `self._timestamps()`);
+    * default factories build a new buffer; the factories of `crop_by_distance` (`parent._image(c)[lo:hi, :]`) and `flip`
+      (`np.flip(parent._image(c), axis=0)`) return views of the array in the PARENT's table; `downsampled_by` builds a new
+      buffer (`block_reduce` / `timestamp_mean` of the parent's array); `copy` carries the factories, not the table;
+    * `get_image("rgb")` = `np.stack` of the three planes: a new, writeable buffer, never stored;
+    * an in-place write through a handed-out array raises `ValueError` when the flag is off, else changes the buffer —
+      and with it every array object that reads that buffer.
+-/
+namespace Alias
+
+inductive Key | img (c : Color) | ts
+deriving DecidableEq, Repr
+
+inductive Xf
+  | crop (lo hi : Nat)   -- crop_by_distance: rows lo..hi
+  | flip                 -- flip: rows reversed
+  | down (k : Nat)       -- downsampled_by(position_factor = k)
+deriving DecidableEq, Repr
+
+structure Arr where
+  buf : Nat
+  idx : List Nat
+  w : Bool
+deriving DecidableEq, Repr
+
+/-- static part of an object: the objects its factory closures close over (parent, its parent, …) and the transformation
+    its factories apply (`none`: default factories) -/
+structure Sk where
+  ic : List Nat        -- image factory: closure chain …
+  ix : Option Xf       -- … and transformation
+  tc : List Nat        -- timestamp factory: closure chain …
+  tx : Option Xf       -- … and transformation (`flip` replaces the image factory only)
+deriving DecidableEq, Repr
+
+def Sk.chain (o : Sk) : Key → List Nat
+  | .ts => o.tc
+  | .img _ => o.ic
+
+def Sk.xf (o : Sk) : Key → Option Xf
+  | .ts => o.tx
+  | .img _ => o.ix
+
+structure St where
+  mem : List (List Int)
+  objs : List Sk
+  caches : List (List (Key × Arr))
+  outs : List Arr          -- every array object handed out so far
+deriving Repr
+
+def content (mem : List (List Int)) (a : Arr) : List Int := a.idx.map fun p => (mem.getD a.buf []).getD p 0
+
+/-! value level (also what a view does to the positions) -/
+
+def cropL {α} (cols lo hi : Nat) (l : List α) : List α := (l.drop (lo * cols)).take ((hi - lo) * cols)
+
+def flipL {α} (cols : Nat) : Nat → List α → List α
+  | 0, l => l
+  | fuel + 1, l => if cols = 0 ∨ l.length ≤ cols then l else flipL cols fuel (l.drop cols) ++ l.take cols
+
+/-- `block_reduce(data, (k, 1), np.sum)[: rows // k, :]` -/
+def downImg (cols k : Nat) (l : List Int) : List Int :=
+  (List.range (l.length / cols / k)).flatMap fun r => (List.range cols).map fun c =>
+    ((List.range k).map fun t => l.getD ((r * k + t) * cols + c) 0).sum
+
+/-- `timestamp_mean(ts[: rows // k * k].reshape(-1, k, cols), axis=1)`: the smallest timestamp of the blocks plus the
+    floored mean offset from it -/
+def downTs (cols k : Nat) (l : List Int) : List Int :=
+  let used := l.take (l.length / cols / k * k * cols)
+  let m := minL used
+  (List.range (l.length / cols / k)).flatMap fun r => (List.range cols).map fun c =>
+    m + ((List.range k).map fun t => used.getD ((r * k + t) * cols + c) 0 - m).sum / (k : Int)
+
+def downV (cols k : Nat) : Key → List Int → List Int
+  | .img _, l => downImg cols k l
+  | .ts, l => downTs cols k l
+
+def stack3 : List Int → List Int → List Int → List Int
+  | a :: as, b :: bs, c :: cs => a :: b :: c :: stack3 as bs cs
+  | _, _, _ => []
+
+def lookupA (c : List (Key × Arr)) (k : Key) : Option Arr := (c.find? (·.1 = k)).map (·.2)
+
+/-- `cache[key] = array` -/
+def storeA (st : St) (i : Nat) (k : Key) (a : Arr) : St :=
+  { st with caches := st.caches.set i ((k, a) :: st.caches.getD i []) }
+
+/-- what the factory of a derived object does with the array `p` the parent's memoised method returned -/
+def applyXf (cols : Nat) (st : St) (k : Key) (p : Arr) : Xf → St × Arr
+  | .crop lo hi => (st, { p with idx := cropL cols lo hi p.idx })
+  | .flip => (st, { p with idx := flipL cols p.idx.length p.idx })
+  | .down f =>
+    ({ st with mem := st.mem ++ [downV cols f k (content st.mem p)] },
+      ⟨st.mem.length, List.range (downV cols f k (content st.mem p)).length, true⟩)
+
+/-- `obj[i]._image(c)` / `obj[i]._timestamps()` where `up` evaluates the same quantity of the parent -/
+def getAt (cols : Nat) (src : Key → List Int) (up : St → St × Option Arr) (st : St) (i : Nat) (k : Key) :
+    St × Option Arr :=
+  match st.objs[i]? with
+  | none => (st, none)
+  | some o =>
+    match lookupA (st.caches.getD i []) k with
+    | some a => (st, some a)
+    | none =>
+      match o.xf k with
+      | none =>
+        let a : Arr := ⟨st.mem.length, List.range (src k).length, false⟩
+        (storeA { st with mem := st.mem ++ [src k] } i k a, some a)
+      | some x =>
+        match up st with
+        | (st1, none) => (st1, none)
+        | (st1, some p) =>
+          let r := applyXf cols st1 k p x
+          (storeA r.1 i k { r.2 with w := false }, some { r.2 with w := false })
+
+def getArr (cols : Nat) (src : Key → List Int) : List Nat → St → Nat → Key → St × Option Arr
+  | [], st, i, k => getAt cols src (fun st => (st, none)) st i k
+  | par :: rest, st, i, k => getAt cols src (fun st => getArr cols src rest st par k) st i k
+
+def getTop (cols : Nat) (src : Key → List Int) (st : St) (i : Nat) (k : Key) : St × Option Arr :=
+  match st.objs[i]? with
+  | none => (st, none)
+  | some o => getArr cols src (o.chain k) st i k
+
+/-- the factories of the object `crop_by_distance / flip / downsampled_by` make from object `i`: closures over `i`; `flip`
+    replaces the image factory only (the timestamp factory is the one `copy` carried over) -/
+def viewSk (i : Nat) (o : Sk) : Xf → Sk
+  | .flip => ⟨i :: o.ic, some .flip, o.tc, o.tx⟩
+  | x => ⟨i :: o.ic, some x, i :: o.tc, some x⟩
+
+inductive AOp
+  | get (i : Nat) (k : Key)          -- get_image(colour) / timestamps
+  | rgb (i : Nat)                    -- get_image("rgb")
+  | write (h j : Nat) (v : Int)      -- in-place write through the h-th array handed out: flat element j := v
+  | view (i : Nat) (x : Xf)          -- crop_by_distance / flip / downsampled_by
+  | copy (i : Nat)                   -- copy.copy / calibrate_to_kbp
+deriving DecidableEq, Repr
+
+inductive AAns
+  | arr (c : List Int) (w : Bool)
+  | refused | written | made | dead | err
+deriving DecidableEq, Repr
+
+def hand (st : St) (a : Arr) : St × AAns := ({ st with outs := st.outs ++ [a] }, .arr (content st.mem a) a.w)
+
+def stepA (cols : Nat) (src : Key → List Int) (st : St) : AOp → St × AAns
+  | .get i k =>
+    match getTop cols src st i k with
+    | (st1, none) => (st1, .dead)
+    | (st1, some a) => hand st1 a
+  | .rgb i =>
+    match getTop cols src st i (.img .red) with
+    | (st1, none) => (st1, .dead)
+    | (st1, some r) =>
+      match getTop cols src st1 i (.img .green) with
+      | (st2, none) => (st2, .dead)
+      | (st2, some g) =>
+        match getTop cols src st2 i (.img .blue) with
+        | (st3, none) => (st3, .dead)
+        | (st3, some b) =>
+          if r.idx.length = g.idx.length ∧ g.idx.length = b.idx.length then
+            let v := stack3 (content st3.mem r) (content st3.mem g) (content st3.mem b)
+            hand { st3 with mem := st3.mem ++ [v] } ⟨st3.mem.length, List.range v.length, true⟩
+          else (st3, .err)  -- np.stack: ValueError
+  | .write h j v =>
+    match st.outs[h]? with
+    | none => (st, .dead)
+    | some a =>
+      if a.w then
+        match a.idx[j]? with
+        | none => (st, .written)
+        | some p => ({ st with mem := st.mem.set a.buf ((st.mem.getD a.buf []).set p v) }, .written)
+      else (st, .refused)
+  | .view i x =>
+    match st.objs[i]? with
+    | none => (st, .dead)
+    | some o => ({ st with objs := st.objs ++ [viewSk i o x], caches := st.caches ++ [[]] }, .made)
+  | .copy i =>
+    match st.objs[i]? with
+    | none => (st, .dead)
+    | some o => ({ st with objs := st.objs ++ [o], caches := st.caches ++ [[]] }, .made)
+
+def runA (cols : Nat) (src : Key → List Int) : St → List AOp → St × List AAns
+  | st, [] => (st, [])
+  | st, op :: rest =>
+    ((runA cols src (stepA cols src st op).1 rest).1, (stepA cols src st op).2 :: (runA cols src (stepA cols src st op).1 rest).2)
+
+def initSt : St := ⟨[], [⟨[], none, [], none⟩], [[]], []⟩
+
+
+/-! value semantics (the specification side; executable, answered by freshly built, never written-to twins on the code side):
+    no memory, no tables — an object is the list of transformations that made it, every answer is recomputed from the
+    source values -/
+
+def applyV (cols : Nat) (k : Key) (x : Xf) (l : List Int) : List Int :=
+  match x with
+  | .crop lo hi => cropL cols lo hi l
+  | .flip => flipL cols l.length l
+  | .down f => downV cols f k l
+
+/-- `path`: newest transformation first -/
+def valOf (cols : Nat) (src : Key → List Int) (path : List Xf) (k : Key) : List Int :=
+  path.foldr (applyV cols k) (src k)
+
+structure Sp where
+  ip : List (List Xf)     -- per object: what its images went through …
+  tp : List (List Xf)     -- … and what its timestamps went through
+  flags : List Bool       -- WRITEABLE flag of every array handed out so far
+deriving Repr
+
+def Sp.paths (sp : Sp) : Key → List (List Xf)
+  | .ts => sp.tp
+  | .img _ => sp.ip
+
+def viewPath (p q : List Xf) : Xf → List Xf × List Xf
+  | .flip => (.flip :: p, q)
+  | x => (x :: p, x :: q)
+
+def stepS (cols : Nat) (src : Key → List Int) (sp : Sp) : AOp → Sp × AAns
+  | .get i k =>
+    match (sp.paths k)[i]? with
+    | none => (sp, .dead)
+    | some p => ({ sp with flags := sp.flags ++ [false] }, .arr (valOf cols src p k) false)
+  | .rgb i =>
+    match sp.ip[i]? with
+    | none => (sp, .dead)
+    | some p =>
+      if (valOf cols src p (.img .red)).length = (valOf cols src p (.img .green)).length
+          ∧ (valOf cols src p (.img .green)).length = (valOf cols src p (.img .blue)).length then
+        ({ sp with flags := sp.flags ++ [true] },
+          .arr (stack3 (valOf cols src p (.img .red)) (valOf cols src p (.img .green)) (valOf cols src p (.img .blue))) true)
+      else (sp, .err)
+  | .write h _ _ =>
+    match sp.flags[h]? with
+    | none => (sp, .dead)
+    | some true => (sp, .written)
+    | some false => (sp, .refused)
+  | .view i x =>
+    match sp.ip[i]?, sp.tp[i]? with
+    | some p, some q => ({ sp with ip := sp.ip ++ [(viewPath p q x).1], tp := sp.tp ++ [(viewPath p q x).2] }, .made)
+    | _, _ => (sp, .dead)
+  | .copy i =>
+    match sp.ip[i]?, sp.tp[i]? with
+    | some p, some q => ({ sp with ip := sp.ip ++ [p], tp := sp.tp ++ [q] }, .made)
+    | _, _ => (sp, .dead)
+
+def runS (cols : Nat) (src : Key → List Int) : Sp → List AOp → Sp × List AAns
+  | sp, [] => (sp, [])
+  | sp, op :: rest =>
+    ((runS cols src (stepS cols src sp op).1 rest).1, (stepS cols src sp op).2 :: (runS cols src (stepS cols src sp op).1 rest).2)
+
+def initSp : Sp := ⟨[[]], [[]], []⟩
+
+/-! protocol: `c19.alias <cols> <red> <green> <blue> <ts> <op>*`;
+    op = `g:<i>:<r|g|b|ts>` | `rgb:<i>` | `w:<h>:<j>:<v>` | `v:<i>:crop.<lo>.<hi>|flip|down.<k>` | `c:<i>` -/
+open Verif.Proto
+
+def showAAns : AAns → String
+  | .arr c w => s!"arr({showBool w};{showIntList c})"
+  | .refused => "refused" | .written => "written" | .made => "made" | .dead => "dead" | .err => "err"
+
+def key? : String → Option Key
+  | "r" => some (.img .red) | "g" => some (.img .green) | "b" => some (.img .blue) | "ts" => some .ts | _ => none
+
+def xf? (s : String) : Option Xf :=
+  match s.splitOn "." with
+  | ["crop", a, b] => do
+    let a ← nat? a
+    let b ← nat? b
+    pure (.crop a b)
+  | ["flip"] => some .flip
+  | ["down", k] => (nat? k).map .down
+  | _ => none
+
+def aop? (s : String) : Option AOp :=
+  match s.splitOn ":" with
+  | ["g", i, k] => do
+    let i ← nat? i
+    let k ← key? k
+    pure (.get i k)
+  | ["rgb", i] => (nat? i).map .rgb
+  | ["w", h, j, v] => do
+    let h ← nat? h
+    let j ← nat? j
+    let v ← int? v
+    pure (.write h j v)
+  | ["v", i, x] => do
+    let i ← nat? i
+    let x ← xf? x
+    pure (.view i x)
+  | ["c", i] => (nat? i).map .copy
+  | _ => none
+
+def handleAlias (spec : Bool) : List String → Option String
+  | cols :: r :: g :: b :: ts :: ops => do
+    let cols ← nat? cols
+    let r ← intList? r
+    let g ← intList? g
+    let b ← intList? b
+    let ts ← intList? ts
+    let ops ← ops.mapM aop?
+    let src : Key → List Int := fun k => match k with
+      | .img .red => r | .img .green => g | .img .blue => b | .ts => ts
+    pure ("|".intercalate ((if spec then (runS cols src initSp ops).2 else (runA cols src initSt ops).2).map showAAns))
+  | _ => none
+
+end Alias
+
 def handle : List String → Option String
   | "c19.hist" :: args => do
     let (f, s, e, ops) ← parse? args
@@ -708,6 +1023,8 @@ def handle : List String → Option String
   | "c19.fresh" :: args => do
     let (f, s, e, ops) ← parse? args
     pure ("|".intercalate ((freshAll f s e ops).map (showAns f)))
+  | "c19.alias" :: args => Alias.handleAlias false args
+  | "c19.aliasSpec" :: args => Alias.handleAlias true args
   | _ => none
 
 end Verif.C19
